@@ -34,8 +34,9 @@ ObjP(props) == Obj([properties |-> Mk(<<>>, props)])
 
 \* body of the target definition, given its shape; "helper" is a local $ref usable inside the body
 Body(s, helper) ==
-  CASE s = "prim"     -> Mk([type |-> "string", format |-> "date"], <<>>)
-    [] s = "object"   -> ObjP([N_6 |-> Str])
+  \* (patterns and enums ride along: the analyzer indexes them under the pointer of their owner, which Flatten moves)
+  CASE s = "prim"     -> Mk([type |-> "string", format |-> "date", pattern |-> "0-9"], <<>>)
+    [] s = "object"   -> ObjP([N_6 |-> Mk([type |-> "string", enum |-> <<"a", "b">>], <<>>)])
     [] s = "arrayref" -> Mk([type |-> "array"], [items |-> helper])
     [] s = "tuple"    -> Mk([type |-> "array"], [items |-> ListOf(<<Int, helper>>)])
     [] s = "allof"    -> Mk(<<>>, [allOf |-> ListOf(<<helper, ObjP([N_6 |-> Str])>>)])
